@@ -117,6 +117,11 @@ def gen(rng, allow_generated):
                      "defs": [], "impls": [], "backs": []})
     if rng.random() < 0.2:
         mods[0]["evals"].append({"name": "gv", "vis": "pub", "ty": mptr(nm(rng.choice(order))), "addr": 0x70000})
+    # an extern value typed by a generated vftable struct (extern values resolve after all types: always fine)
+    owners = [(m, d) for m in mods for d in m["defs"] if d["k"] == "type" and d["vft"]["has"]]
+    if owners and rng.random() < 0.35:
+        m, d = rng.choice(owners)
+        m["evals"].append({"name": "table", "vis": "pub", "ty": cptr(nm(d["name"] + "Vftable")), "addr": 0x90000})
     return {"ptr": rng.choice([4, 8]), "mods": mods}
 
 
